@@ -111,6 +111,19 @@ func newViewEnv(w *world.World, r *report.Run, base sdk.Context) *vEnv {
 	return e
 }
 
+// deadline: the views search gets its own window from the moment it starts (the
+// worker may have spent a while on its share of part 1), inside the run's budget.
+func (e *vEnv) deadline() time.Time {
+	own := time.Now().Add(70 * time.Second)
+	if e.thorough {
+		own = time.Now().Add(10 * time.Minute)
+	}
+	if max := e.r.Deadline(120*time.Second, 20*time.Minute); own.After(max) {
+		return max
+	}
+	return own
+}
+
 func (e *vEnv) g0() *vghost {
 	g := &vghost{CurID: world.CompassID, IssuedID: map[string]string{}, PrevRel: map[string]string{}, Repl: map[string]bool{}, last: "setup"}
 	bs, _ := e.w.App.SkywayKeeper.GetOutgoingTxBatches(e.root)
@@ -136,7 +149,7 @@ func (e *vEnv) spec(shard, nshards int) explore.Spec {
 			}
 			return e.acceptedView(n.Ctx, g)
 		},
-		MaxDepth: 3, Deadline: e.r.Deadline(95*time.Second, 14*time.Minute),
+		MaxDepth: 3, Deadline: e.deadline(),
 		ShardDepth: 2, Shard: shard, NShards: nshards,
 	}
 	if e.thorough {
